@@ -383,8 +383,56 @@ def _snapshot(arrs):
     return out
 
 
+def _plain_value(r):
+    """any result of the high-level interface as a plain Python value (arrays, also partitioned ones, through to_list)"""
+    ak, np = _load()
+    if isinstance(r, Tagged):
+        return r.v
+    if isinstance(r, (ak.highlevel.Array, ak.highlevel.Record)):
+        return ak.to_list(r)
+    if isinstance(r, tuple):
+        return tuple(_plain_value(x) for x in r)
+    if isinstance(r, list):
+        return [_plain_value(x) for x in r]
+    if isinstance(r, np.ndarray):
+        return r.tolist()
+    if isinstance(r, (np.generic,)):
+        return r.item()
+    return r
+
+
+def _outcome(func, plain, arrs):
+    try:
+        with warnings.catch_warnings():
+            warnings.simplefilter('ignore')
+            return '(ok %s)' % value_sx(_plain_value(_run_func(func, plain, arrs)))
+    except ValueError:
+        return '(err value)'
+    except (RuntimeError, IndexError, NotImplementedError):
+        return '(err runtime)'
+
+
+def run_part(parts):
+    """(part (cut...) FUNC args... (arr L) ...): FUNC on the array as it is, and on the same array split into partitions
+    at the given cuts (ak.partitioned of the range slices; empty partitions where cuts repeat); both outcomes are returned"""
+    ak, np = _load()
+    cuts = [int(x) for x in parts[0]]
+    func = parts[1]
+    plain, arrs = split_args(parts[2:])
+    a = arrs[0]
+    bounds = [0] + cuts + [len(a)]
+    pieces = [a[b0:b1] for b0, b1 in zip(bounds[:-1], bounds[1:])]
+    p = ak.partitioned(pieces)
+    assert len(p) == len(a)
+    eager = _outcome(func, plain, arrs)
+    part = _outcome(func, plain, [p] + arrs[1:])
+    return Tagged('pair', '(pair %s %s)' % (eager, part))
+
+
 def run_func(func, parts):
     """the call, with every array operand dumped (all buffers, reachable or not) before and after it"""
+    if func == 'part':
+        return run_part(parts)
     plain, arrs = split_args(parts)
     before = _snapshot(arrs)
     try:
@@ -498,6 +546,25 @@ def _run_func(func, plain, arrs):
         return ak.with_name(arrs[0], None if plain[0] == 'none' else str(plain[0]))
     if func == 'to_list':
         return Tagged('value', ak.to_list(arrs[0]))
+    if func in ('sort', 'argsort'):
+        return getattr(ak, func)(arrs[0], axis=int(plain[0]), ascending=flag(plain[1]), stable=flag(plain[2]))
+    if func == 'len':
+        return Tagged('value', len(arrs[0]))
+    if func == 'getitem':
+        # items: (at i) | (rng a b s) with none | (arr i...) | (fld name)
+        where = []
+        for it in plain[0]:
+            if it[0] == 'at':
+                where.append(int(it[1]))
+            elif it[0] == 'rng':
+                where.append(slice(*[None if x == 'none' else int(x) for x in it[1:4]]))
+            elif it[0] == 'arr':
+                where.append(np.array([int(x) for x in it[1:]], dtype=np.int64))
+            elif it[0] == 'fld':
+                where.append(str(it[1]))
+            else:
+                raise KeyError('unknown function getitem item ' + str(it[0]))
+        return arrs[0][tuple(where) if len(where) != 1 else where[0]]
     if func == 'getfield':
         out = arrs[0]
         for k in plain[0]:
@@ -551,6 +618,8 @@ def one(line):
             r = run_func(func, parts)
         if isinstance(r, Tagged) and r.kind == 'typestr':
             return '(%s ok (typestr %s))' % (cid, hexs(r.v))
+        if isinstance(r, Tagged) and r.kind == 'pair':
+            return '(%s ok %s)' % (cid, r.v)
         if isinstance(r, Tagged) and r.kind == 'value':
             return '(%s ok (value %s))' % (cid, value_sx(r.v))
         return '(%s ok %s)' % (cid, dump_result(r))
